@@ -847,11 +847,14 @@ func ruleReset(c *Ctx) {
 			if atOpts != nil || ev.Br == nil || ev.Br.Kind != "range" {
 				return
 			}
-			// locate the pj variable: the value that is finally returned — use any *.copyStrings field known
-			for k, v := range env.fields {
-				if strings.HasSuffix(k, ".copyStrings") {
-					vv := v
-					atOpts = &vv
+			// the parser-state variable: the local whose current value owns a copyStrings field
+			for o, pv := range env.vars {
+				if a, ok := pv.SingleAtom(); ok {
+					if v, ok := env.fields[a+".copyStrings"]; ok {
+						vv := v
+						atOpts = &vv
+						_ = o
+					}
 				}
 			}
 			if atOpts == nil {
@@ -867,8 +870,8 @@ func ruleReset(c *Ctx) {
 		if atOpts == nil {
 			// no options loop entered on this path: look at the final value
 			found := false
-			for k, v := range env.fields {
-				if strings.HasSuffix(k, ".copyStrings") {
+			if ra, ok := sp.Ret[0].SingleAtom(); ok {
+				if v, ok := env.fields[ra+".copyStrings"]; ok {
 					a, _ := v.SingleAtom()
 					found = a == "true"
 				}
